@@ -22,6 +22,8 @@
 //	AppendBytes                           append (unique tokens, per-goroutine order), lin, forced walk/append,
 //	                                        mutate/append-inside; the argument is a sub-slice of a scratch page
 //	                                        the goroutine overwrites after the call
+//	AppendBytes to an ABSENT key          appendfresh: fresh key per round, every goroutine one token, barrier; sqlite with
+//	                                        the default DSN and with a busy timeout (contended statements wait)
 //	Add / Emplace (absent key)            addrace, emplacerace (every goroutine, every key), lin,
 //	                                        forced walk/add, walk/emplace, mutate/add+emplace-inside
 //	Remove (present key)                  removerace (every goroutine removes every key: one success each), lin,
@@ -353,6 +355,7 @@ type env struct {
 	db      *sqlx.DB
 	runs    int
 	hashing bool
+	dsn     string // appended to the file name when a sqlite store is opened ("?_pragma=busy_timeout(...)")
 }
 
 func openEnv() *env {
@@ -392,7 +395,7 @@ func (e *env) fresh(backend string) *pisces.KV {
 		os.Remove(filepath.Join(e.dir, fmt.Sprintf("db%d-journal", e.n)))
 	}
 	e.n++
-	db, err := sqlx.OpenSqlite3(filepath.Join(e.dir, fmt.Sprintf("db%d", e.n)))
+	db, err := sqlx.OpenSqlite3(filepath.Join(e.dir, fmt.Sprintf("db%d", e.n)) + e.dsn)
 	if err != nil {
 		panic(err)
 	}
@@ -853,6 +856,7 @@ func main() {
 	nacc := flag.Int("acc", 3, "accounting runs per kind and backend")
 	threads := flag.Int("threads", 8, "goroutines in accounting runs (2..16)")
 	per := flag.Int("per", 60, "calls per goroutine in accounting runs")
+	fresh := flag.Int("fresh", 120, "rounds (fresh keys) of the append-to-absent-key runs")
 	flag.Parse()
 	r := hx.NewRng(*seed)
 	out := hx.NewOut(os.Stdout)
@@ -1046,6 +1050,35 @@ func main() {
 				}
 				calls := execute(kv, progs)
 				emit(Run{Stream: "append", Backend: backend, Threads: nt, Calls: calls,
+					Final: finals(kv, keys), Count: count(kv)})
+			}
+			// append to ABSENT keys: a fresh key per round, every goroutine appends one token of its own,
+			// all released together; in the end the key holds exactly the tokens whose call succeeded.
+			// On sqlite once with the default DSN (a contended statement is refused: BUSY) and once with a
+			// busy timeout (it waits instead, so all of them really run against the same absent key).
+			for _, dsn := range []string{"", "?_pragma=busy_timeout(5000)"} {
+				if backend == "mem" && dsn != "" {
+					continue
+				}
+				ev.dsn = dsn
+				kv := ev.fresh(backend)
+				ev.dsn = ""
+				na := 4 + r.Intn(5)
+				rounds := *fresh
+				var keys []string
+				progs := make([][]Op, na)
+				for x := 0; x < rounds; x++ {
+					keys = append(keys, h(fmt.Sprintf("f%04d", x)))
+					for t := range progs {
+						progs[t] = append(progs[t], Op{Op: "append", K: keys[x], V: h(fmt.Sprintf("%02d.%04d;", t, x))})
+					}
+				}
+				calls := executeRounds(kv, progs, 1)
+				name := "default"
+				if dsn != "" {
+					name = "busy_timeout"
+				}
+				emit(Run{Stream: "appendfresh", Name: name, Backend: backend, Threads: na, Calls: calls,
 					Final: finals(kv, keys), Count: count(kv)})
 			}
 			// remove race: every goroutine removes every (existing) key
